@@ -3,6 +3,7 @@
 
 def register(reg):
     register_init(reg)
+    register_assemble(reg)
     C = reg.contract
 
     # ------------------------------------------------------------------ C06: sort_meta
@@ -119,3 +120,38 @@ def register_init(reg):
       raises_props=["C12"],
       notes="clock, progress, cwd, outfile, announce / seed lists flow only to top-level keys or to object attributes, never into "
             "info (clause info_key_set quantifies over every key)")
+
+
+def register_assemble(reg):
+    C = reg.contract
+    REM = "(file_tail(feeder.current) + rest(feeder.paths, feeder.index + 1))"
+    C("torrentfile.torrent.TorrentFile.assemble",
+      props=["C01", "C15"],
+      params={"self": {"cls": "torrentfile.torrent.TorrentFile",
+                       "fields": {"meta": "dict", "path": "str", "progress": "int", "align": "bool", "piece_length": "int"}}},
+      requires=["('info' in self.meta) and is_dict(self.meta['info'])", "self.piece_length > 0",
+                "not ('files' in self.meta['info']) and not ('length' in self.meta['info'])",
+                "('piece length' in self.meta['info']) and is_int(self.meta['info']['piece length']) and "
+                "self.meta['info']['piece length'] == self.piece_length"],
+      ensures=[
+          ("C01", "pieces_are_the_bep3_hashing_of_the_listed_files_cut_with_the_recorded_piece_length",
+           "implies(not self.align or fs_isfile(self.path), self.meta['info']['pieces'] == "
+           "v1_pieces(rest(listed_files(), 0), as_int(self.meta['info']['piece length'])))"),
+          ("C01", "recorded_piece_length_untouched", "self.meta['info']['piece length'] == old(self.meta['info']['piece length'])"),
+          ("C01", "single_file_records_its_exact_length",
+           "implies(fs_isfile(self.path), self.meta['info']['length'] == listed_total() and not ('files' in self.meta['info']))"),
+      ],
+      raises={"torrentfile.utils.MissingPathError": {}, "IndexError": {}},
+      loops={0: {"invariant": ["True"], "modifies": []},
+             1: {"protocol": True, "modifies": ["feeder", "pieces"],
+                        "let": {"S_head": REM},
+                        "assume_in_body": [f"v1_unfold(S_head, hashed(), {REM}, feeder.piece_length)"],
+                        "invariant": [
+                            ("pieces_so_far_plus_rest_is_the_whole",
+                             f"implies(not feeder.align, pieces + v1_pieces({REM}, feeder.piece_length) == v1_pieces(rest(filelist, 0), self.piece_length))"),
+                            ("feeder_wf", "feeder.paths == filelist and feeder.piece_length == self.piece_length and feeder.piece_length > 0 "
+                                          "and feeder.align == (self.align and not fs_isfile(self.path)) and 0 <= feeder.index and "
+                                          "file_open(feeder.current) and implies(feeder.index >= len(feeder.paths), file_at_eof(feeder.current))"),
+                        ]}},
+      notes="filelist is what utils.filelist_total returns (its contract, C01/C08/C09: every regular file below the path exactly once, "
+            "sorted); the hashing loop is verified through the iterator protocol of Hasher")
